@@ -2,8 +2,11 @@ package v2
 
 import (
 	"context"
+	"encoding/json"
 	"fmt"
 	"math/big"
+	"net/http"
+	"net/url"
 
 	"github.com/pkg/errors"
 
@@ -74,13 +77,14 @@ var zzPayloads = map[string]string{
 	"SOMETHING_ELSE":        `{}`,
 }
 
-func ZZ_C18N() int { return 3 }
+func ZZ_C18N() int { return 6 }
 
 // ZZ_C18: bulk requests run in order, answer position by position, stop at a failure.
 // shape+1 = number of elements. Action, outcome, error class of every element and
 // continueOnFailure are arbitrary.
 func ZZ_C18(shape int) {
-	n := shape + 1
+	n := shape%3 + 1
+	viaHTTP := shape >= 3
 	bulk := make(Bulk, n)
 	l := &zzLedger{fail: make([]bool, n), class: make([]int, n)}
 	wantFail := make([]bool, n)
@@ -100,7 +104,37 @@ func ZZ_C18(shape int) {
 		l.class[ci] = verifhook.Choose(fmt.Sprintf("class%d", i), 3)
 		ci++
 	}
-	ret, errorsInBulk, err := ProcessBulk(context.Background(), l, bulk, cont)
+	var ret []Result
+	var errorsInBulk bool
+	var err error
+	if viaHTTP {
+		// the whole request: JSON body, continueOnFailure query parameter, status code and JSON answer
+		body, merr := json.Marshal(bulk)
+		if merr != nil {
+			panic(merr)
+		}
+		q := ""
+		if cont {
+			q = []string{"continueOnFailure=true", "continueOnFailure=1", "x=1&continueOnFailure=TRUE"}[verifhook.Choose("contSpelling", 3)]
+		} else {
+			q = []string{"", "continueOnFailure=false", "continueOnFailure=0"}[verifhook.Choose("contSpelling", 3)]
+		}
+		r := (&http.Request{Method: http.MethodPost, URL: &url.URL{Path: "/l1/_bulk", RawQuery: q}, Header: http.Header{}, Body: &zzBody{data: body}}).
+			WithContext(backend.ContextWithLedger(context.Background(), l))
+		w := &zzRecorder{}
+		bulkHandler(w, r)
+		var resp struct {
+			Data []Result `json:"data"`
+		}
+		if uerr := json.Unmarshal(w.body, &resp); uerr != nil {
+			panic(uerr)
+		}
+		ret = resp.Data
+		verifhook.Assert(w.status == http.StatusOK || w.status == http.StatusBadRequest, "C18 bulk answered with a status other than 200/400")
+		errorsInBulk = w.status == http.StatusBadRequest
+	} else {
+		ret, errorsInBulk, err = ProcessBulk(context.Background(), l, bulk, cont)
+	}
 	verifhook.Reach("processed")
 	verifhook.Assert(err == nil, "C18 well-formed bulk is processed")
 	// reference: elements are processed in order; an unknown action is a failing element
